@@ -277,18 +277,18 @@ const (
 // f2Extra: argument tuples that only bite in combination (a backtracking pattern needs its subject),
 // always executed in addition to the systematic tuples
 var f2Extra = map[string][][]string{
-	"regsub":                       {{bombSubject, bombPattern, `"x"`}, {`"@LONG70K@"`, `"(a|aa)+$"`, `"x"`}, {`"abc"`, `"(b)"`, `"\1\1\1\1\1\1\1\1\1\1\0\0"`}, {`"abc"`, `""`, `"@LONG70K@"`}, {`"@LONG70K@"`, `"a"`, `"@LONG70K@"`}},
-	"regsuball":                    {{bombSubject, bombPattern, `"x"`}, {`"@LONG70K@"`, `"(a|aa)+$"`, `"x"`}, {`"@LONG70K@"`, `""`, `"@LONG70K@"`}, {`"@LONG70K@"`, `"a"`, `"\0\0\0\0\0\0\0\0\0\0\0\0\0\0\0\0"`}, {`"@LONG70K@"`, `"a*?"`, `"@LONG8K@"`}},
-	"querystring.regfilter":        {{`"/?aaaaaaaaaaaaaaaaaaaaaaaaaaaaaaaaaaaaaaaaaaaaaaaa!=1"`, bombPattern}},
-	"querystring.regfilter_except": {{`"/?aaaaaaaaaaaaaaaaaaaaaaaaaaaaaaaaaaaaaaaaaaaaaaaa!=1"`, bombPattern}},
-	"querystring.globfilter":       {{`"/?aaaaaaaaaaaaaaaaaaaaaaaaaaaaaaaaaaaaaaaaaaaaaaaab=1"`, `"*a*a*a*a*a*a*a*a*a*a*a*a*a*a*a*a*c"`}},
+	"regsub":                        {{bombSubject, bombPattern, `"x"`}, {`"@LONG70K@"`, `"(a|aa)+$"`, `"x"`}, {`"abc"`, `"(b)"`, `"\1\1\1\1\1\1\1\1\1\1\0\0"`}, {`"abc"`, `""`, `"@LONG70K@"`}, {`"@LONG70K@"`, `"a"`, `"@LONG70K@"`}},
+	"regsuball":                     {{bombSubject, bombPattern, `"x"`}, {`"@LONG70K@"`, `"(a|aa)+$"`, `"x"`}, {`"@LONG70K@"`, `""`, `"@LONG70K@"`}, {`"@LONG70K@"`, `"a"`, `"\0\0\0\0\0\0\0\0\0\0\0\0\0\0\0\0"`}, {`"@LONG70K@"`, `"a*?"`, `"@LONG8K@"`}},
+	"querystring.regfilter":         {{`"/?aaaaaaaaaaaaaaaaaaaaaaaaaaaaaaaaaaaaaaaaaaaaaaaa!=1"`, bombPattern}},
+	"querystring.regfilter_except":  {{`"/?aaaaaaaaaaaaaaaaaaaaaaaaaaaaaaaaaaaaaaaaaaaaaaaa!=1"`, bombPattern}},
+	"querystring.globfilter":        {{`"/?aaaaaaaaaaaaaaaaaaaaaaaaaaaaaaaaaaaaaaaaaaaaaaaab=1"`, `"*a*a*a*a*a*a*a*a*a*a*a*a*a*a*a*a*c"`}},
 	"querystring.globfilter_except": {{`"/?aaaaaaaaaaaaaaaaaaaaaaaaaaaaaaaaaaaaaaaaaaaaaaaab=1"`, `"*a*a*a*a*a*a*a*a*a*a*a*a*a*a*a*a*c"`}},
-	"std.replaceall":               {{`"@LONG70K@"`, `"a"`, `"@LONG70K@"`}, {`"@LONG70K@"`, `""`, `"@LONG8K@"`}},
-	"std.strpad":                   {{`"abc"`, "70000", `"@LONG70K@"`}, {`""`, "-70000", `"ab"`}},
-	"utf8.strpad":                  {{`"abc"`, "70000", `"日本"`}, {`""`, "-70000", `"日"`}},
-	"std.strrep":                   {{`"@LONG70K@"`, "1000"}},
-	"substr":                       {{`"@LONG70K@"`, "-9223372036854775808", "-9223372036854775808"}, {`"abc"`, "9223372036854775807", "9223372036854775807"}, {`"abc"`, "-1", "9223372036854775807"}},
-	"utf8.substr":                  {{`"日本語"`, "-9223372036854775808", "-9223372036854775808"}, {`"日本語"`, "9223372036854775807", "9223372036854775807"}, {`"日本語"`, "-1", "9223372036854775807"}},
+	"std.replaceall":                {{`"@LONG70K@"`, `"a"`, `"@LONG70K@"`}, {`"@LONG70K@"`, `""`, `"@LONG8K@"`}},
+	"std.strpad":                    {{`"abc"`, "70000", `"@LONG70K@"`}, {`""`, "-70000", `"ab"`}},
+	"utf8.strpad":                   {{`"abc"`, "70000", `"日本"`}, {`""`, "-70000", `"日"`}},
+	"std.strrep":                    {{`"@LONG70K@"`, "1000"}},
+	"substr":                        {{`"@LONG70K@"`, "-9223372036854775808", "-9223372036854775808"}, {`"abc"`, "9223372036854775807", "9223372036854775807"}, {`"abc"`, "-1", "9223372036854775807"}},
+	"utf8.substr":                   {{`"日本語"`, "-9223372036854775808", "-9223372036854775808"}, {`"日本語"`, "9223372036854775807", "9223372036854775807"}, {`"日本語"`, "-1", "9223372036854775807"}},
 }
 
 // functions whose memory use is driven by their arguments (learnt from earlier runs: an endless append
